@@ -26,8 +26,11 @@ FORMULAS = {
     3: "y ~ C(k, levels=KL) + B(g) + standardize(z) + (scale(x) | h)",
     4: "f ~ x + h + bs(z, df=4)",
     5: "y ~ poly(xc, 2) + center(xc) + (scale(xc) | g)",   # training parameters that are exactly zero
+    6: "y ~ ustd(x) + ustd(z, shift=1):f + (ustd(x) | h)",     # a user-defined stateful transform from the caller's namespace
 }
-NS = {"KL": [1, 2, 3, 10, 20]}
+from fv.rows import UserStd  # noqa: E402  pylint: disable=wrong-import-position
+
+NS = {"KL": [1, 2, 3, 10, 20], "ustd": UserStd}
 _FRAMES = {}
 
 
@@ -138,7 +141,9 @@ class Runner:
     def snapshot(self, designs, objs):
         from formulae import config
 
-        snap = {"config": config["EVAL_UNSEEN_CATEGORIES"]}
+        from formulae.transforms import TRANSFORMS
+
+        snap = {"config": config["EVAL_UNSEEN_CATEGORIES"], "registry": repr(sorted((k, id(v)) for k, v in TRANSFORMS.items()))}
         for fid, df in frames().items():
             snap[f"frame{fid}"] = cells.frame_digest(df)
         snap["namespace"] = repr(NS)
@@ -210,6 +215,15 @@ class Runner:
                     status = type(e).__name__
                 if op.get("key"):
                     v = "badkey:" + str(v)
+            elif kind == "register":
+                from formulae.transforms import register_stateful_transform
+
+                try:
+                    cls = type("UserReg%d" % (self.eid,), (UserStd,), {"__transform_name__": "ureg%d" % (self.eid,)})
+                    register_stateful_transform(cls)
+                    v = "ureg"
+                except Exception as e:  # pylint: disable=broad-except
+                    status = type(e).__name__
             elif kind == "print":
                 try:
                     tgt = [o for o in list(designs) + list(objs) if o is not None]
@@ -262,7 +276,7 @@ def random_history(rng, maxlen):
         r = rng.random()
         if nd == 0 or r < 0.2:
             if nd < 4:
-                ops.append({"op": "build", "f": rng.randint(1, 5), "D": rng.randint(1, 2)})
+                ops.append({"op": "build", "f": rng.randint(1, 6), "D": rng.randint(1, 2)})
                 nd += 1
                 continue
         if r < 0.7:
@@ -272,8 +286,10 @@ def random_history(rng, maxlen):
                 ops.append({"op": "config", "v": rng.choice(["error", "silent"]), "key": rng.choice(["EVAL_UNSEEN", "eval_unseen_categories", "x"])})
             else:
                 ops.append({"op": "config", "v": rng.choice(["error", "warning", "silent", "silent", "bogus", "Warning", ""])})
-        elif r < 0.93:
+        elif r < 0.91:
             ops.append({"op": "print"})
+        elif r < 0.95:
+            ops.append({"op": "register"})
         else:
             ops.append({"op": "describe", "f": rng.randint(1, 5)})
     return ops
@@ -332,9 +348,9 @@ def mc_histories(rep, maxlen):
         out = os.path.join(tmp, "h.ndjson")
         cfg = common.write_cfg(
             os.path.join(tmp, "Lifecycle_MC.cfg"),
-            constants={"Formulas": "{1, 2, 5}", "TrainFrames": "{1, 2}", "NewFrames": "{3, 4}", "Modes": ["error", "warning", "silent"], "BadValues": ["bogus"], "MaxLen": maxlen, "DoExport": True},
+            constants={"UserTransforms": ["ureg"], "Formulas": "{1, 5, 6}", "TrainFrames": "{1, 2}", "NewFrames": "{3, 4}", "Modes": ["error", "warning", "silent"], "BadValues": ["bogus"], "MaxLen": maxlen, "DoExport": True},
             invariants=["HistoryIndependent", "ConfigValid", "Export"],
-            properties=["Frozen", "ConfigDiscipline"],
+            properties=["Frozen", "ConfigDiscipline", "RegistryDiscipline"],
         )
         res = tlc.run_tlc("Lifecycle_MC", cfg=cfg, env={"FV_OUT": out}, workers=16, heap="8g", timeout=2400, allow_violation=True)
         rep.add_tlc(f"Lifecycle_MC maxlen={maxlen}", res)
